@@ -178,3 +178,72 @@ func vfEnt(k uint64) func(n int) []byte {
 		return detrand.Bytes(k*1000003+ctr, n)
 	}
 }
+
+// vfRefSess is an established session between one real endpoint and the
+// reference implementation operated by the harness.
+type vfRefSess struct {
+	N        *wire.Net
+	Ep       *drive.Endpoint
+	RealSide wire.Side
+	RefSide  wire.Side
+	Enc      *refobfs4.Encoder // reference -> real endpoint
+	Dec      *refobfs4.Decoder // real endpoint -> reference
+}
+
+// vfRefSession performs a complete handshake between the real client (or
+// server) and the reference peer, everything released whole.
+func vfRefSession(br vfBridge, ent func(int) []byte, realIsClient, legacy bool) (*vfRefSess, error) {
+	n := wire.New()
+	s := &vfRefSess{N: n}
+	if realIsClient {
+		s.RealSide, s.RefSide = wire.A, wire.B
+		cf, cargs, err := vfClientArgs(br, legacy, br.IAT)
+		if err != nil {
+			return s, err
+		}
+		s.Ep = drive.Start(n, wire.A, func() (net.Conn, error) { return cf.Dial("tcp", "192.0.2.1:1", vfDialFn(n.Conn(wire.A)), cargs) })
+		if err := n.WaitQuiescent(wire.A); err != nil {
+			return s, err
+		}
+		sv := &refobfs4.Server{ID: br.ID, Key: refobfs4.NewEKey(ent), Pad: ent(int(ent(1)[0]))}
+		if err := sv.ParseClient(n.Take(wire.A), vfHourNow()); err != nil {
+			return s, fmt.Errorf("reference server: %w", err)
+		}
+		c2s, s2c := refobfs4.Keys(sv.KeySeed)
+		s.Enc, s.Dec = refobfs4.NewEncoder(s2c), refobfs4.NewDecoder(c2s)
+		n.Inject(wire.B, append(sv.Response(), s.Enc.Frame(refobfs4.PktSeed, br.Seed, 0)...))
+		n.ReleaseAll(wire.B)
+		if err := n.WaitQuiescent(wire.A); err != nil {
+			return s, err
+		}
+	} else {
+		s.RealSide, s.RefSide = wire.B, wire.A
+		sf, err := vfServerFactory(br)
+		if err != nil {
+			return s, err
+		}
+		s.Ep = drive.Start(n, wire.B, func() (net.Conn, error) { return sf.WrapConn(n.Conn(wire.B)) })
+		cl := &refobfs4.Client{ID: refobfs4.Identity{Pub: br.ID.Pub, NodeID: br.ID.NodeID}, Key: refobfs4.NewEKey(ent),
+			Pad: ent(refobfs4.ClientMinPad + int(ent(1)[0])), Hour: vfHourNow()}
+		n.Inject(wire.A, cl.Handshake())
+		n.ReleaseAll(wire.A)
+		if err := n.WaitQuiescent(wire.B); err != nil {
+			return s, err
+		}
+		resp := n.Take(wire.B)
+		sh, err := cl.ParseResponse(resp)
+		if err != nil {
+			return s, fmt.Errorf("reference client: %w", err)
+		}
+		c2s, s2c := refobfs4.Keys(sh.KeySeed)
+		s.Enc, s.Dec = refobfs4.NewEncoder(c2s), refobfs4.NewDecoder(s2c)
+		s.Dec.Feed(resp[sh.Len:])
+		if _, err := s.Dec.All(); err != nil {
+			return s, fmt.Errorf("reference client: seed frame: %w", err)
+		}
+	}
+	if !s.Ep.SetupDone() || s.Ep.SetupErr() != nil {
+		return s, fmt.Errorf("real endpoint did not complete the handshake: done=%v err=%v", s.Ep.SetupDone(), s.Ep.SetupErr())
+	}
+	return s, nil
+}
